@@ -265,7 +265,10 @@ class _Base(SubCheck):
                 if prev is not None:
                     e.assume(prev < pos)
                 prev = pos
-                cls = e.choice("cls" + nm, menu)
+                if ci == 0 and k == 0 and "cls0" in shape:  # class of the first record enumerated by the shape (spreads big shapes over jobs)
+                    cls = shape["cls0"]
+                else:
+                    cls = e.choice("cls" + nm, menu)
                 snv = e.bit("snv" + nm) if shape["snv"] else 1
                 j = None
                 if cls in NEEDS_ID:
@@ -468,7 +471,14 @@ class Counts(_Base):
                         for sel in sels:
                             if sum(n) >= 3 and (only_snvs or dot) and tier == "quick" and tag == "HP":
                                 continue
-                            out.append(dict(n=list(n), tag=tag, dot=dot, only_snvs=only_snvs, chromosomes=sel, snv=True, menu=FULL_MENU_PS if tag == "PS" else FULL_MENU_HP))
+                            if sum(n) >= 4 and (only_snvs or (tag == "HP" and dot)):
+                                continue  # 4 records: ~10^5 paths per shape, kept to the option combinations that change the reader's behaviour
+                            menu = FULL_MENU_PS if tag == "PS" else FULL_MENU_HP
+                            base = dict(n=list(n), tag=tag, dot=dot, only_snvs=only_snvs, chromosomes=sel, snv=True, menu=menu)
+                            if sum(n) >= 4:
+                                out += [dict(base, cls0=c) for c in menu]
+                            else:
+                                out.append(base)
         return out
 
     def bounds(self, tier):
@@ -500,12 +510,11 @@ class Counts(_Base):
 
 class Blocks(_Base):
     name = "blocks"
-    required_cover = ["ALL row", "interleaved phase sets", "nested phase sets", "three phase sets on one chromosome"]
+    required_cover = ["ALL row", "interleaved phase sets", "nested phase sets", "three phase sets on one chromosome", "phase set split into two pieces"]
 
     def shapes(self, tier):
-        if tier != "quick" and "phase set split into two pieces" not in self.required_cover:  # needs 6 records on one chromosome
-            self.required_cover = self.required_cover + ["phase set split into two pieces"]
-        splits = [(4, 0), (5, 0), (2, 2), (3, 2)] if tier == "quick" else [(4, 0), (5, 0), (6, 0), (2, 2), (3, 2), (4, 2), (3, 3)]
+        # 6 records on one chromosome are the smallest input on which a phase set is cut into two pieces of >= 2 variants
+        splits = [(4, 0), (5, 0), (6, 0), (2, 2), (3, 2)] if tier == "quick" else [(4, 0), (5, 0), (6, 0), (7, 0), (2, 2), (3, 2), (4, 2), (3, 3)]
         out = []
         for n in splits:
             for tag in ("PS", "HP"):
